@@ -11,11 +11,11 @@ _PROBE = "; generated code comes from api.Generate run at check time on two hand
 
 CLAIMED = {
     "C01": {
-        "text": "bounded: freshly generated executors (2 configurations quick, 7 thorough) executed symbolically with their goroutines; for 16 operation families (incl. lists of scalars, @skip and @include on one node, an object with a single resolver-backed field under aliases) with symbolic @skip/@include variables and resolver/directive outcomes in {value,null,error} (deviation budget 1 quick / 2 thorough) the data bytes and the multiset of error paths equal an independent reference implementation of the GraphQL execution algorithm; one genuine deviation (error path of a null scalar-list element) is recorded as a known finding; subscriptions: one response per event equal to the reference for that event; the families whose list elements of different concrete types merge type-conditioned selections also on every completion order of the concurrently resolved elements (resolvers gated, race check)",
+        "text": "bounded: freshly generated executors (2 configurations quick, 7 thorough) executed symbolically with their goroutines; for 16 operation families (incl. lists of scalars, @skip and @include on one node, an object with a single resolver-backed field under aliases) with symbolic @skip/@include variables and resolver/directive outcomes in {value,null,error} (deviation budget 1 quick / 2 thorough) the data bytes and the multiset of error paths equal an independent reference implementation of the GraphQL execution algorithm; one genuine deviation (error path of a null scalar-list element) is recorded as a known finding; subscriptions: one response per event equal to the reference for that event; the families whose list elements of different concrete types merge type-conditioned selections also on every completion order of the concurrently resolved elements (resolvers gated, race check); operations with @defer against the defer-aware reference; failing siblings under parents whose path has 1..7 segments",
         "design_ref": "DESIGN.md section 4, C01", "note": _N + _PROBE, "technique": _T,
     },
     "C04": {
-        "text": "bounded fault enumeration decided by the solver-driven explorer: {error, panic} at every resolver/directive position of the families (single faults quick, pairs thorough), on calling and spawned goroutines and list elements, worker_limit 0/1/2: response equals the reference with that position failed, recover hook once per panic, no panic escapes a goroutine; the same for faults inside and outside deferred groups of 7 @defer operations against a defer-aware reference; the field interceptor failing around any one field; faults while subscribing, inside a subscription event, and while a websocket operation is dispatched; several non-null siblings / list elements failing concurrently on every completion order incl. a preemption between reporting an error and asking whether one was reported (one error per failing position; such a violation is replayed natively up to 3000 times until the window is hit)",
+        "text": "bounded fault enumeration decided by the solver-driven explorer: {error, panic} at every resolver/directive position of the families (single faults quick, pairs thorough), on calling and spawned goroutines and list elements, worker_limit 0/1/2: response equals the reference with that position failed, recover hook once per panic, no panic escapes a goroutine; the same for faults inside and outside deferred groups of 7 @defer operations against a defer-aware reference; the field interceptor failing around any one field; faults while subscribing, inside a subscription event, and while a websocket operation is dispatched; several non-null siblings / list elements failing concurrently on every completion order incl. a preemption between reporting an error and asking whether one was reported (one error per failing position; such a violation is replayed natively up to 3000 times until the window is hit); federation entity lookups and batches failing by error or panic",
         "design_ref": "DESIGN.md section 4, C04", "note": _N + _PROBE, "technique": _T,
     },
     "C05": {
@@ -23,7 +23,7 @@ CLAIMED = {
         "design_ref": "DESIGN.md section 4, C05", "note": _N + _PROBE + "; real context.WithCancel and x/sync/semaphore interpreted from source", "technique": _T + "; deadlock/leak detection by the deterministic task scheduler",
     },
     "C11": {
-        "text": "bounded: wsConnection.init over 15 first-frame kinds x 6 payloads x 4 init functions x 2 subprotocols; subscribe and its goroutine over executor verdicts x 0..2 payloads x panic step x subscription error; per-id frame grammar, deregistration, close callback once, no overlapping Send; the reader loop on every client script of <=2 (3) frames over a 9-frame alphabet with long-lived operations; run() with keep-alive / pong-only / ping-pong timers ticking at any scheduling point and server-context cancellation; init timeout; the connection may already have sent its Close frame (writes fail with ErrCloseSent)",
+        "text": "bounded: wsConnection.init over 15 first-frame kinds x 6 payloads x 4 init functions x 2 subprotocols; subscribe and its goroutine over executor verdicts x 0..2 payloads x panic step x subscription error; per-id frame grammar, deregistration, close callback once, no overlapping Send; the reader loop on every client script of <=2 (3) frames over a 9-frame alphabet with long-lived operations; run() with keep-alive / pong-only / ping-pong timers ticking at any scheduling point and server-context cancellation; init timeout; the connection may already have sent its Close frame (writes fail with ErrCloseSent); the wire format of both subprotocols (real exchangers, gorilla I/O stubbed) against tables written from the protocol documents",
         "design_ref": "DESIGN.md section 4, C11", "note": _N + "; gorilla *websocket.Conn methods are name-intercepted stubs under the engine, native replays use a real loopback connection; unbounded scripts, duplicate ids and read-deadline timing are outside the bound", "technique": _T,
     },
     "C12": {
@@ -35,47 +35,47 @@ CLAIMED = {
         "design_ref": "DESIGN.md section 4, C13", "note": _N + _PROBE, "technique": _T + "; schedule exploration, gated native replay of completion orders",
     },
     "C16": {
-        "text": "bounded: introspection wrappers on harness-built definitions with symbolic @deprecated/description/default on every field, argument, input field, enum value, directive argument; generated __schema/__type resolvers behind aliases/fragments/@include with DisableIntrospection symbolic; every type of a schema with an interface hierarchy, unions, wrappers, oneOf, specifiedBy and repeatable directives compared with the ast.Schema (kinds, interfaces, possible types, ofType chains, default values, type list, root types, directives)",
+        "text": "bounded: introspection wrappers on harness-built definitions with symbolic @deprecated/description/default on every field, argument, input field, enum value, directive argument; generated __schema/__type resolvers behind aliases/fragments/@include with DisableIntrospection symbolic; every type of a schema with an interface hierarchy, unions, wrappers, oneOf, specifiedBy and repeatable directives compared with the ast.Schema (kinds, interfaces, possible types, ofType chains, default values, type list, root types, directives); introspection does not write into the schema and answers the same after a prior introspection; names that are not types",
         "design_ref": "DESIGN.md section 4, C16", "note": _N + "; arbitrary schemas and byte-level SDL reconstruction are outside the bound", "technique": _T,
     },
     "C20": {
-        "text": "bounded: generated __resolve_entities / resolveEntity / resolveManyEntities on lists of up to 2 (quick) / 3 (thorough) representations over 15 shapes with at most one failing lookup, entity resolvers honouring their context, incl. the explicit_requires and computed_requires options and entities whose @requires sets overlap and reach into a nested external object; every completion order of groups and entity goroutines with a happens-before race check on the result list; the genuine defect found (multi resolver with several keys) is fixed in /repo",
+        "text": "bounded: generated __resolve_entities / resolveEntity / resolveManyEntities on lists of up to 2 (quick) / 3 (thorough) representations over 15 shapes with at most one failing lookup, entity resolvers honouring their context, incl. the explicit_requires and computed_requires options and entities whose @requires sets overlap and reach into a nested external object, key-only entities, a compound key whose nested field comes first; every completion order of groups and entity goroutines with a happens-before race check on the result list; the genuine defect found (multi resolver with several keys) is fixed in /repo",
         "design_ref": "DESIGN.md section 4, C20", "note": _N + _PROBE, "technique": _T + "; schedule exploration",
     },
     "C06": {
-        "text": "bounded schedule exploration: every order of enabled tasks at blocking points (plus preemptions at synchronisation operations in the invalids harness) is a decision of the explorer; on each schedule the response equals the schedule-free reference and a vector-clock happens-before check covers every load/store; mutation root fields proven serial on every schedule",
+        "text": "bounded schedule exploration: every order of enabled tasks at blocking points (plus preemptions at synchronisation operations in the invalids harness) is a decision of the explorer; on each schedule the response equals the schedule-free reference and a vector-clock happens-before check covers every load/store; mutation root fields proven serial on every schedule; failing siblings under parents whose path has 1..7 segments",
         "design_ref": "DESIGN.md section 4, C06", "note": _N + _PROBE + "; race counterexamples are confirmed with go test -race", "technique": _T + "; happens-before race detection over explored schedules",
     },
     "C02": {
-        "text": "full width for typed integers (every Unmarshal{Int,Int64,Int32,Uint,Uint64,Uint32,IntID,UintID} on int/int64/int32/uint64 inputs with symbolic 64-bit values: accepted => mathematically unchanged, in range => accepted); boundary grid for numeric texts; generated argument binders on a 34-case corpus (incl. an Omittable-backed and a map-backed input) compared with hand-annotated coerced values (2 configurations quick, 4 thorough); 21 requests with variables through executor.CreateOperationContext (defaults, presence, JSON forms); two genuine deviations (unprovided variable inside an input literal; explicit null variable in a non-null position) are recorded as known findings",
+        "text": "full width for typed integers (every Unmarshal{Int,Int64,Int32,Uint,Uint64,Uint32,IntID,UintID} on int/int64/int32/uint64 inputs with symbolic 64-bit values: accepted => mathematically unchanged, in range => accepted); boundary grid for numeric texts; generated argument binders on a 34-case corpus (incl. an Omittable-backed and a map-backed input) compared with hand-annotated coerced values (2 configurations quick, 4 thorough); 21 requests with variables through executor.CreateOperationContext (defaults, presence, JSON forms); a field bound to a model method whose parameter order differs from the schema's; a third probe with generated models under return_pointers_in_unmarshalinput / struct_fields_always_pointers: false / omit_slice_element_pointers (13 cases incl. uncoercible fields: one error at the field's own path, no panic); two genuine deviations (unprovided variable inside an input literal; explicit null variable in a non-null position) are recorded as known findings",
         "design_ref": "DESIGN.md section 4, C02", "note": _N + _PROBE + "; options that change resolver signatures (nullable_input_omittable, struct_fields_always_pointers) are outside the bound", "technique": _T,
     },
     "C03": {
-        "text": "bounded: real Executor.CreateOperationContext/parseQuery/DispatchOperation with the real gqlparser interpreted, over a 12-request corpus x symbolic mutator verdicts x cache states x suggestion setting; hook order over all lists of <=3 extensions from 5 hook subsets; request histories through one Server and its POST transport ending in each of 10 requests that must be rejected; one document per validation rule of the specification (29) under suggestions on/off, cache, and a prior suggestions-disabled executor; the solver decides every branch and assertion inside these bounds",
+        "text": "bounded: real Executor.CreateOperationContext/parseQuery/DispatchOperation with the real gqlparser interpreted, over a 14-request corpus x symbolic mutator verdicts x cache states x suggestion setting x parser token limit (the genuine defect found there - over-limit documents executed truncated - is fixed in /repo); hook order over all lists of <=3 extensions from 5 hook subsets; request histories through one Server and its POST transport ending in each of 10 requests that must be rejected; one document per validation rule of the specification (29) under suggestions on/off, cache, and a prior suggestions-disabled executor; the solver decides every branch and assertion inside these bounds",
         "design_ref": "DESIGN.md section 4, C03", "note": _N, "technique": _T,
     },
     "C07": {
-        "text": "one-step induction on the POST parameter pool (arbitrary body x executor outcome incl. panics; pooled object all-zero again) plus all two-request histories over an 11-body corpus; other transports allocate per request (checked by the same harness family as C09); server/executor/transport graph and package globals frozen across a request; the same text under different variables against one executor with a query cache, sequentially (cached document frozen) and concurrently on every explored schedule with a happens-before race check; the complexity gate after the same cached text was served with other variable values",
+        "text": "one-step induction on the POST parameter pool (arbitrary body x executor outcome incl. panics; pooled object all-zero again) plus all two-request histories over an 11-body corpus; other transports allocate per request (checked by the same harness family as C09); server/executor/transport graph and package globals frozen across a request; the same text under different variables against one executor with a query cache, sequentially (cached document frozen) and concurrently on every explored schedule with a happens-before race check; the complexity gate after the same cached text was served with other variable values; two-request histories through one Server over a 33-request corpus (texts differing only inside a string literal or in a comment's extent, pairs of texts colliding under CRC-32 / FNV / Adler-32) x no cache / map / the real LRU",
         "design_ref": "DESIGN.md section 4, C07", "note": _N + "; sync.Pool modelled as LIFO-or-New", "technique": _T,
     },
     "C08": {
-        "text": "bounded/full width: writeQuotedString, MarshalString, MarshalID on every byte string up to length 3 (quick) / 4 (thorough) against an independent RFC 8259 + RFC 3629 oracle; integer bindings on a boundary grid; every float64 through the Float bindings and back (digit generation of strconv/fmt is a documented-contract stub, counterexamples replayed on the real formatter); FieldSet/Array compositions of depth 2 (3); Boolean/Time/UUID/Map/Any/Omittable",
+        "text": "bounded/full width: writeQuotedString, MarshalString, MarshalID on every byte string up to length 3 (quick) / 4 (thorough) against an independent RFC 8259 + RFC 3629 oracle; integer bindings on a boundary grid; every float64 through the Float bindings and back (digit generation of strconv/fmt is a documented-contract stub, counterexamples replayed on the real formatter); FieldSet/Array compositions of depth 2 (3); Boolean/Time (fixed zones on both sides of UTC, sub-second parts, far years)/UUID/Map/Any/Omittable (Omittable[string] over a corpus of 43 escape classes: encoding/json is an engine model)",
         "design_ref": "DESIGN.md section 4, C08", "note": _N, "technique": _T,
     },
     "C09": {
-        "text": "bounded: Server.ServeHTTP -> GET/POST/GRAPHQL/UrlEncodedForm/MultipartForm transports (mime/multipart interpreted from source) -> real Executor and gqlparser (interpreted) with an ExecutableSchema fake, over 12 documents x operationName x 9 Accept headers x 4 ResponseHeaders settings, malformed-request corpus, unsupported requests; status, Content-Type, JSON body, 'GET only queries', 'exactly the named operation' asserted on a ResponseWriter fake; also with the document supplied by an operation-parameter mutator (APQ hash-only requests), for two-request sequences, for content negotiation across two requests with configured response headers, and for transport selection (both transport orders x method x request Content-Type x where the document is); with an error presenter that rewrites the presented error in place the status of an invalid request stays a client error on all five transports; two genuine defects found (status taken after the presenter ran; Content-Type lost under configured headers) are fixed in /repo",
+        "text": "bounded: Server.ServeHTTP -> GET/POST/GRAPHQL/UrlEncodedForm/MultipartForm transports (mime/multipart interpreted from source) -> real Executor and gqlparser (interpreted) with an ExecutableSchema fake, over 12 documents x operationName x 9 Accept headers x 4 ResponseHeaders settings, malformed-request corpus, unsupported requests; status, Content-Type, JSON body, 'GET only queries', 'exactly the named operation' asserted on a ResponseWriter fake; also with the document supplied by an operation-parameter mutator (APQ hash-only requests), for two-request sequences, for content negotiation across two requests with configured response headers, and for transport selection (both transport orders x method x request Content-Type x where the document is); with an error presenter that rewrites the presented error in place the status of an invalid request stays a client error on all five transports; two genuine defects found (status taken after the presenter ran; Content-Type lost under configured headers) are fixed in /repo; suggestions on / off and the documented example server (NewDefaultServer) are dimensions of the main harness",
         "design_ref": "DESIGN.md section 4, C09", "note": _N, "technique": _T,
     },
     "C10": {
-        "text": "bounded: AddUpload over variables trees of depth <=2 x corpus paths; bytesReader from an arbitrary valid state with full-width offsets; malformed bodies on every HTTP transport incl. 15 malformed multipart bodies x 4 Content-Type headers through the real mime/multipart reader; MultipartForm.Do over 12 part layouts x spill x over-limit (with and without Content-Length) x OS faults with multipart/os/http dependencies as name-intercepted stubs",
+        "text": "bounded: AddUpload over variables trees of depth <=2 x corpus paths; bytesReader from an arbitrary valid state with full-width offsets; malformed bodies on every HTTP transport incl. 15 malformed multipart bodies x 4 Content-Type headers through the real mime/multipart reader; the real frame decoders of both websocket subprotocols on 43 text frames; MultipartForm.Do over 12 part layouts x spill x over-limit (with and without Content-Length) x OS faults with multipart/os/http dependencies as name-intercepted stubs",
         "design_ref": "DESIGN.md section 4, C10", "note": _N, "technique": _T,
     },
     "C15": {
-        "text": "one-step induction: from every invariant-satisfying cache state (key = SHA-256(text)), one request over 3 texts x 11 extension shapes keeps the invariant, resolves hash-only requests to matching text or NotFound, rejects mismatches without registering; explicit histories of 2 (4) requests, and of 2 (3) HTTP requests through one Server incl. undecodable bodies, over 8 texts with white-space and letter-case twins x document cache none / map / LRU; two text+hash requests at once through one extension (race check); every explored path is also replayed natively",
+        "text": "one-step induction: from every invariant-satisfying cache state (key = SHA-256(text)), one request over 5 texts (incl. blank ones) x 18 extension shapes (incl. near-miss hashes) keeps the invariant, resolves hash-only requests to matching text or NotFound, rejects mismatches without registering; explicit histories of 2 (4) requests, and of 2 (3) HTTP requests through one Server incl. undecodable bodies, over 8 texts with white-space and letter-case twins x document cache none / map / LRU; two text+hash requests at once through one extension (race check); every explored path is also replayed natively",
         "design_ref": "DESIGN.md section 4, C15", "note": _N + "; SHA-256 computed natively on concrete texts, mapstructure.Decode is a contract model validated by the native replays", "technique": _T,
     },
     "C14": {
-        "text": "safeAdd is decided for all 2^128 operand pairs (bit-vector SMT, no bound) against an independent saturating reference; complexity walk and limit gate bounded as listed in the evidence; the gate end to end through executor.CreateOperationContext with argument-dependent custom costs and arguments supplied by variables; the generated Complexity() switch incl. two GraphQL fields bound to one Go field",
+        "text": "safeAdd is decided for all 2^128 operand pairs (bit-vector SMT, no bound) against an independent saturating reference; complexity walk and limit gate bounded as listed in the evidence; the gate end to end through executor.CreateOperationContext with argument-dependent custom costs and arguments supplied by variables; the generated Complexity() switch incl. two GraphQL fields bound to one Go field; custom costs that depend on arguments, a response key selected twice, an interface field costed twice",
         "design_ref": "DESIGN.md section 4, C14",
         "note": "trusts go/ssa, the engine's instruction semantics (validated by native replay of sampled paths), z3",
         "technique": "symbolic execution of go/ssa + SMT (z3 bit-vectors), counterexample replay on the native build",
